@@ -11,7 +11,7 @@ pub fn fake_cpuid(_leaf: u32, _sub_leaf: u32) -> std::arch::x86_64::CpuidResult 
     std::arch::x86_64::CpuidResult { eax: 0, ebx: 0, ecx: 0, edx: 0 }
 }
 
-// @verif prop=C15 id=O15.vcf.lazy tier=quick unwind=22 timeout=1200 stubs="std::arch::x86_64::__cpuid_count->no optional CPU features (memchr2 runs its real SSE2 path)" bound="VCF line = fixed 'a TAB 1 TAB . TAB A TAB . TAB . TAB' + 5 ARBITRARY ASCII bytes (FILTER/INFO/terminators incl. TAB, CR, LF) + LF, read from a slice: if read_record returns Ok, then filters(), info(), samples() and reference_sequence_name() do not panic" fns="vcf::io::reader::record::read_record,read_field,read_required_field,Fields::filters,Fields::info,Fields::samples,Bounds::*_range"
+// @verif prop=C15 id=O15.vcf.lazy tier=off off_reason="does not fit: >1200 s (String pushes, from_utf8 and memchr2 under symbolic bytes)" unwind=22 timeout=1200 stubs="std::arch::x86_64::__cpuid_count->no optional CPU features (memchr2 runs its real SSE2 path)" bound="VCF line = fixed 'a TAB 1 TAB . TAB A TAB . TAB . TAB' + 5 ARBITRARY ASCII bytes (FILTER/INFO/terminators incl. TAB, CR, LF) + LF, read from a slice: if read_record returns Ok, then filters(), info(), samples() and reference_sequence_name() do not panic" fns="vcf::io::reader::record::read_record,read_field,read_required_field,Fields::filters,Fields::info,Fields::samples,Bounds::*_range"
 #[kani::proof]
 #[kani::unwind(22)]
 #[kani::stub(std::arch::x86_64::__cpuid_count, fake_cpuid)]
